@@ -325,3 +325,21 @@ func VPH_refgroupRows() {
 	}
 	vp_Reach("end")
 }
+
+// VP_ItemsSummary lets harnesses of other packages look into the item map that
+// HistorySize.JSON hands to encoding/json: symbol -> displayed value.
+func VP_ItemsSummary(v interface{}) (map[string]uint64, bool) {
+	items, ok := v.(map[string]*item)
+	if !ok {
+		return nil, false
+	}
+	out := map[string]uint64{}
+	for sym, it := range items {
+		if it == nil || it.symbol != sym {
+			return nil, false
+		}
+		n, _ := it.value.ToUint64()
+		out[sym] = n
+	}
+	return out, true
+}
